@@ -173,7 +173,7 @@ func fieldAccesses(fn *ssa.Function) []FieldAccess {
 		}
 		out = append(out, FieldAccess{fn, in, tn, fld, write, ls[in]})
 	}
-	eachInstr(fn, func(in ssa.Instruction) {
+	eachInstrRaw(fn, func(in ssa.Instruction) {
 		switch x := in.(type) {
 		case *ssa.Store:
 			add(in, x.Addr, true)
